@@ -166,7 +166,7 @@ fn build(p: &Program, order: &[usize]) -> (Library, Vec<Ptr<Instance>>) {
     // one program in four leaves out of the listing an instance that is itself placed relatively and that another instance refers to: it
     // is part of the cell only through that relation (the placer's dependency order pulls it in; its dependants need it resolved)
     let hidden: Option<usize> = if p.specs.len() % 4 == 3 {
-        (0..p.specs.len()).find(|j| p.specs[*j].rel.is_some() && p.specs.iter().any(|s| matches!(&s.rel, Some((to, ..)) if to == j)))
+        (0..p.specs.len()).find(|j| p.specs[*j].rel.is_some() && p.specs.iter().enumerate().any(|(k, s)| k != *j && matches!(&s.rel, Some((to, ..)) if to == j)))
     } else {
         None
     };
